@@ -1,4 +1,5 @@
 import Secp.Proofs.BitsSpec
+import Secp.Proofs.ScalarCodecTies
 /-!
 # C14 — the scalar bit expansion is the exact 256-bit binary representation
 
@@ -15,6 +16,14 @@ theorem bits_spec (s : L4) (hs : sOk s) :
     (Hand.Scalar.bits s).length = 256 ∧
     (∀ i, i < 256 → (Hand.Scalar.bits s).getD i 2 = (sVal s).val / 2 ^ i % 2) ∧
     evalBits (Hand.Scalar.bits s) = (sVal s).val := _root_.bits_spec s hs
+
+/-- **C14 for the `Bits` regenerated from `scalar.go` on this run** (`GenScalarCodec.scalar_bits`: `FromMontgomery`, then the
+`for i := range 256` loop with its body `out[i] = uint8((n[i/64] >> (i % 64)) & 1)` translated statement by statement — the
+computed limb index and the store into `out` are checked `Option` steps): it never panics and returns the model's list -/
+theorem bits_regenerated (s : L4) (hs : sOk s) :
+    ∃ bs, GenScalarCodec.scalar_bits s = some bs ∧ bs.length = 256 ∧
+      (∀ i, i < 256 → bs.getD i 2 = (sVal s).val / 2 ^ i % 2) ∧ evalBits bs = (sVal s).val :=
+  ⟨Hand.Scalar.bits s, ScalarCodecTies.bits_tie s, _root_.bits_spec s hs⟩
 
 /-- the loop covers all 256 positions with the expected body (regenerated facts) -/
 theorem loop_facts : Facts.bitsLoopBound = 256 ∧
